@@ -52,3 +52,49 @@ theorem log2_loop_spec (L : Nat → Int → Int → M (Int × Int)) (hi : Int)
       rw [this]
 
 end Fcppt.C06
+
+namespace Fcppt.C06
+open Fcppt
+
+/-- The `next_power_of_2` loop: `while ((counter /= 2) != 0) ret *= 2;` -/
+theorem npo2_loop_spec (N : Nat → Int → Int → M (Int × Int)) (hi : Int)
+    (hstep : ∀ (f : Nat) (c r : Int), 0 ≤ c → c ≤ hi → 0 ≤ r → r ≤ hi → (c / 2 ≠ 0 → r * 2 ≤ hi) →
+      N (f + 1) c r = if c / 2 ≠ 0 then N f (c / 2) (r * 2) else .ok (c / 2, r)) :
+    ∀ (n f : Nat) (c r : Int), n ≤ f → 1 ≤ c → c ≤ hi → c < 2 ^ n → 0 < r → r * c ≤ hi →
+      ∃ k : Nat, N (f + 1) c r = .ok (0, r * 2 ^ (k - 1)) ∧ 0 < k ∧ 2 ^ (k - 1) ≤ c ∧ c < 2 ^ k := by
+  intro n
+  induction n with
+  | zero =>
+    intro f c r _ h1 _ hlt _ _
+    simp at hlt; omega
+  | succ n ih =>
+    intro f c r hnf h1 hh hlt hr hrc
+    have hrle : r ≤ hi := by
+      have : r * 1 ≤ r * c := Int.mul_le_mul_of_nonneg_left h1 (by omega)
+      omega
+    have hr2 : c / 2 ≠ 0 → r * 2 ≤ hi := by
+      intro hc
+      have : r * 2 ≤ r * c := Int.mul_le_mul_of_nonneg_left (by omega) (by omega)
+      omega
+    rw [hstep f c r (by omega) hh (by omega) hrle hr2]
+    by_cases hc : c / 2 = 0
+    · have : c = 1 := by omega
+      subst this
+      refine ⟨1, ?_, by omega, by simp, by simp⟩
+      simp [hc]
+    · simp only [ne_eq, hc, not_false_eq_true, ↓reduceIte]
+      have hlt' : c / 2 < 2 ^ n := by rw [Int.pow_succ] at hlt; omega
+      obtain ⟨f', rfl⟩ : ∃ f', f = f' + 1 := ⟨f - 1, by omega⟩
+      have hprod : r * 2 * (c / 2) ≤ hi := by
+        have : r * (2 * (c / 2)) ≤ r * c := Int.mul_le_mul_of_nonneg_left (by omega) (by omega)
+        rw [Int.mul_assoc]; omega
+      obtain ⟨k, hk, hk0, hl, hu⟩ := ih f' (c / 2) (r * 2) (by omega) (by omega) (by omega) hlt' (by omega) hprod
+      refine ⟨k + 1, ?_, by omega, ?_, ?_⟩
+      · rw [hk]
+        have : k + 1 - 1 = (k - 1) + 1 := by omega
+        rw [this, Int.pow_succ, Int.mul_assoc, Int.mul_comm 2]
+      · have : k + 1 - 1 = (k - 1) + 1 := by omega
+        rw [this, Int.pow_succ]; omega
+      · rw [Int.pow_succ]; omega
+
+end Fcppt.C06
